@@ -26,7 +26,7 @@ class Obl:
     def __init__(self, name, harness, desc, real=(), defs=(), unwind=None, unwindset=(), flags=(),
                  tiers=("quick", "thorough"), timeout=None, mem_gb=None, entry="main", encodes=(),
                  bounds="", symbolic="", hooks=False, kind="cbmc", pyfunc=None, no_std=(),
-                 backend=None, object_bits=None, twin_defs=None):
+                 backend=None, object_bits=None, twin_defs=None, cut_loops=(), allow_nobody=()):
         self.name = name
         self.harness = harness          # path relative to /verif/harness
         self.desc = desc
@@ -48,6 +48,8 @@ class Obl:
         self.no_std = list(no_std)
         self.backend = backend
         self.object_bits = object_bits
+        self.cut_loops = list(cut_loops)  # spin loops cut by an unwinding ASSUMPTION (goto-instrument), listed in the evidence
+        self.allow_nobody = list(allow_nobody)
         self.twin_defs = twin_defs      # extra -D for a reachability twin (second build + run); its WITNESS must be reached
 
 
@@ -129,6 +131,14 @@ def build(prop, o, workdir):
     log += " ".join(cmd) + "\n" + out
     if rc != 0:
         return None, log
+    if o.cut_loops:
+        gb2 = os.path.join(workdir, o.name + ".cut.gb")
+        cmd = ["goto-instrument", "--unwindset", ",".join("%s:2" % l for l in o.cut_loops), "--no-unwinding-assertions", gb, gb2]
+        rc, out, _ = sh(cmd, timeout=300)
+        log += " ".join(cmd) + "\n" + out[-2000:]
+        if rc != 0:
+            return None, log
+        gb = gb2
     return gb, log
 
 
@@ -229,6 +239,10 @@ def _run_one(prop, o, tier, workdir):
         return r
     verdict, props, st = parse_cbmc(out)
     r.update(st)
+    # cbmc 6 turns every call to a function without a body into a property "no body for callee X" (SUCCESS = unreachable)
+    nobody = sorted(set(p[1].split()[-1] for p in props if ".no-body." in p[0] and p[2] != "SUCCESS" and p[1].split()[-1] not in o.allow_nobody))
+    props = [p for p in props if not (".no-body." in p[0] and p[2] != "SUCCESS")]
+    r["no_body"] = nobody
     if verdict is None or not props:
         if verdict == "SUCCESSFUL" and not props:
             r["why"] = "no properties generated"
@@ -242,6 +256,10 @@ def _run_one(prop, o, tier, workdir):
     r["props_ok"] = sum(1 for p in real if p[2] == "SUCCESS")
     r["witnesses"] = len(wit)
     r["witnesses_reached"] = sum(1 for p in wit if p[2] == "FAILURE")
+    if nobody:
+        r["status"] = "INCONCLUSIVE"; r["why"] = "reachable functions without a body (would be havoc'ed silently): " + ", ".join(nobody)
+        r["wall_s"] = round(time.time() - t0, 2)
+        return r
     bad = [p for p in real if p[2] != "SUCCESS"]
     unre = [p for p in wit if p[2] != "FAILURE"]
     r["functions"] = [f for f in reachable_functions(gb, o.entry)]
